@@ -49,7 +49,12 @@ type c11Behaviour struct {
 	Limit     int      `json:"limit,omitempty"`     // max octets of a packed answer (0 = unlimited)
 	Oversize  string   `json:"oversize,omitempty"`  // drop | tc
 	StripEdns bool     `json:"strip_edns,omitempty"`
-	DataSeed  int64    `json:"data_seed"`
+	// a transient fault during the negotiation only: the queries number LoseFrom .. LoseFrom+LoseCount-1 of one command
+	// letter are lost (the path is otherwise as described above, also afterwards)
+	LoseCmd   string `json:"lose_negotiation_cmd,omitempty"`
+	LoseFrom  int    `json:"lose_from,omitempty"`
+	LoseCount int    `json:"lose_count,omitempty"`
+	DataSeed  int64  `json:"data_seed"`
 }
 
 var c11TypeNames = []string{"NULL", "PRIVATE", "TXT", "SRV", "MX", "CNAME", "AAAA", "A"}
@@ -103,6 +108,9 @@ func (b *c11Behaviour) Class() string {
 	if b.StripEdns {
 		p = append(p, "no-edns0")
 	}
+	if b.LoseCmd != "" {
+		p = append(p, fmt.Sprintf("negotiation-loses-%s#%d+%d", b.LoseCmd, b.LoseFrom, b.LoseCount))
+	}
 	if len(p) == 0 {
 		return "transparent"
 	}
@@ -127,11 +135,12 @@ const (
 	c11ADropSize                // loss: answer above the size limit dropped
 	c11ATcSize                  // loss: answer above the size limit truncated (TC, no records)
 	c11ServerSilent             // loss: the server itself sent nothing (onMessage error / pack failure)
+	c11QLostOnce                // loss: a query of the negotiation lost by the transient fault
 	c11RewriteMask  = c11CaseChanged | c11HiReplaced | c11EdnsStripped
 )
 
 var c11FateNames = []string{"case-changed", "8bit-replaced", "edns0-stripped", "query-dropped(8bit)", "query-dropped(type)",
-	"answer-nxdomain(type)", "answer-empty(type)", "answer-dropped(size)", "answer-truncated(size)", "server-sent-nothing"}
+	"answer-nxdomain(type)", "answer-empty(type)", "answer-dropped(size)", "answer-truncated(size)", "server-sent-nothing", "negotiation-query-lost(transient)"}
 
 func c11FateClass(bits int) string {
 	if bits&^c11RewriteMask != 0 {
@@ -172,6 +181,7 @@ type c11Path struct {
 	last      int // fate of the most recent exchange
 	maxAnswer int
 	maxQuery  int
+	cmdSeen   [256]int // queries per command letter (transient fault)
 }
 
 func newC11Path(b *c11Behaviour) *c11Path {
@@ -304,6 +314,14 @@ func (p *c11Path) Query(q *mdns.Msg) *mdns.Msg {
 	}
 	fate := 0
 	b := p.b
+	if p.phase == 0 && b.LoseCmd != "" && cmd == b.LoseCmd[0] {
+		k := p.cmdSeen[cmd]
+		p.cmdSeen[cmd]++
+		if k >= b.LoseFrom && k < b.LoseFrom+b.LoseCount {
+			p.push(c11QLostOnce)
+			return nil
+		}
+	}
 	if b.StripEdns && q.IsEdns0() != nil {
 		var ex []mdns.RR
 		for _, rr := range q.Extra {
@@ -1023,6 +1041,25 @@ func c11Behaviours(rec *vcommon.Rec) []*c11Behaviour {
 	for len(out) < 40 {
 		add(random())
 	}
+	// transient faults during the negotiation: some queries of one command are lost, then the path is as before. Whatever the
+	// negotiation settles on after that must work like any other outcome.
+	{
+		bases := []c11Behaviour{{}, {Case: "lower"}, {SevenBit: "qmark"}, {Limit: 1024, Oversize: "drop"}, {Types: []string{"TXT"}, Refuse: "timeout"}, {Types: []string{"CNAME", "MX"}, Refuse: "nxdomain"}}
+		k := 0
+		for _, cmd := range []string{"y", "v", "z", "o", "r", "s"} {
+			for _, from := range []int{0, 1, 2} {
+				for _, cnt := range []int{1, 2, 5, 9} {
+					k++
+					if !rec.Thorough() && k%3 != 0 {
+						continue
+					}
+					b := bases[k%len(bases)]
+					b.LoseCmd, b.LoseFrom, b.LoseCount = cmd, from, cnt
+					add(b)
+				}
+			}
+		}
+	}
 	if rec.Thorough() {
 		// all 255 non-empty subsets of answered types x two size limits, case modes and refusal modes rotating
 		for mask := 1; mask <= 255; mask++ {
@@ -1035,7 +1072,7 @@ func c11Behaviours(rec *vcommon.Rec) []*c11Behaviour {
 				add(b)
 			}
 		}
-		for len(out) < 640 {
+		for len(out) < 712 {
 			add(random())
 		}
 	}
